@@ -1,5 +1,5 @@
 SPECIFICATION Spec
 CONSTRAINT TrackL
-INVARIANTS TableMatchesGeometry ExactlyOnce DepsRespected MutualExclusion AllOnceAtEnd StepEndsClean NotAccepted
+INVARIANTS TableMatchesGeometry ExactlyOnce DepsRespected MutualExclusion AllOnceAtEnd StepEndsClean
 POSTCONDITION PrintMaxL
 CHECK_DEADLOCK FALSE
